@@ -5,8 +5,8 @@
 cd /verif
 ids=${@:-$(ls refactors | grep -E '^R[0-9]+-[0-9]+$')}
 bad=0
-# documented fail-closed limits (refactors/INDEX.md, DESIGN.md §9): the checks raise an alarm on this one although behaviour is preserved
-limits=" R8-3 "
+# documented fail-closed limits (refactors/INDEX.md, DESIGN.md §9) would be listed here; currently none
+limits=" "
 for id in $ids; do
   out=$(./devtools/try_refactor.sh /verif/refactors/$id/patch.diff 2>&1)
   if echo "$out" | grep -q "^silent"; then echo "$id silent"
